@@ -401,6 +401,45 @@ class G:
                 self.emit("wf %s" % y)
 
 
+    def suite_dense(self, nb):
+        """C16: dense conversions"""
+        r = self.r
+        for _ in range(nb):
+            x = self.fresh()
+            keys = sorted(set(r.choice([0, 0, 1, 2, 3, 5, 17]) for _ in range(r.choice([1, 2, 3]))))
+            self.build(x, keys)
+            self.emit("dense %s" % x)
+        self.emit("new e2")
+        self.emit("dense e2")
+        for _ in range(nb):
+            # word slices: lengths not multiple of 1024, dense and sparse chunks, trailing partial chunk
+            n = r.choice([0, 1, 2, 63, 64, 1023, 1024, 1025, 1500, 2048, 2049, 3000])
+            ws = []
+            i = 0
+            while i < n:
+                ln = min(n - i, r.choice([1, 1, 3, 70, 200, 1024]))
+                mode = r.random()
+                if mode < 0.35:
+                    ws.append("0*%d" % ln if ln > 1 else "0")
+                elif mode < 0.5:
+                    ws.append("ffffffffffffffff*%d" % ln if ln > 1 else "ffffffffffffffff")
+                else:
+                    for _ in range(min(ln, 40)):
+                        ws.append("%x" % (r.getrandbits(64) if r.random() < 0.6 else (1 << r.randrange(64))))
+                    ln = min(ln, 40)
+                i += ln
+            y = self.fresh()
+            copy = r.randrange(2)
+            cmd = "fromdense %s %d" % (y, copy) if r.random() < 0.8 else "frombitset %s" % y
+            self.emit("%s %s" % (cmd, ".".join(ws) if ws else ""))
+            self.emit("wf %s" % y)
+            # mutate the bitmap in chunks that may share the caller's words, then check the words are untouched
+            for _ in range(4):
+                self.hist_step(y, set(range(0, max(1, (n * 64) // CH + 1))))
+            self.emit("densechk")
+            self.emit("dense %s" % y)
+
+
 SUITES = {}
 
 
@@ -434,5 +473,10 @@ def _nbr(g, scale):
 @suite("xform")
 def _xform(g, scale):
     g.suite_xform(int(25 * scale))
+
+
+@suite("dense")
+def _dense(g, scale):
+    g.suite_dense(int(25 * scale))
 
 
